@@ -19,12 +19,33 @@ func relInput(c *core.Ctx, p *population, idx int) (data []byte, desc string, fi
 	f := p.files[fi]
 	switch k := r.Intn(12); {
 	case k >= 10: // grammar-based shape (fi = -2: its natural entries follow from its signature)
+		if r.Chance(1, 4) {
+			// a CR3 whose preview is the last thing in the file, preview length drawn afresh (what
+			// the last Read of a consumer looks like depends on the length)
+			mk := func() []byte {
+				t, _, _ := gen.SynthPayload(r, r.Bool(), 1)
+				return t
+			}
+			n := r.Range(3000, 120000)
+			cr := gen.BuildCR3(r, gen.CR3Parts{CMT1: mk(), CMT2: mk(), XMP: []byte("<x:xmpmeta xmlns:x='adobe:ns:meta/'><rdf:RDF></rdf:RDF></x:xmpmeta>"),
+				Preview: append([]byte{0xFF, 0xD8}, r.Bytes(n)...), PrvwW: 1620, PrvwH: 1080, NoMdat: true}, 0, false)
+			return cr.Bytes, fmt.Sprintf("cr3 preview-last preview=%d len=%d", n+2, len(cr.Bytes)), -2
+		}
 		d, ds := gen.Shape(r)
 		return d, ds, -2
 	case k < 4:
 		return f.Data, "file=" + f.Name, fi
 	case k < 6:
 		cut := r.Intn(len(f.Data) + 1)
+		if r.Chance(1, 4) {
+			// inside the 24 bytes the sniffers look at: what they make of the missing rest must not
+			// come from anywhere else
+			cut = r.Range(1, 23)
+			if cut > len(f.Data) {
+				cut = len(f.Data)
+			}
+			return f.Data[:cut], fmt.Sprintf("file=%s trunc@%d", f.Name, cut), fi
+		}
 		if len(f.Fields) > 0 && r.Bool() {
 			fl := f.Fields[r.Intn(len(f.Fields))]
 			cut = fl.Off + r.Pick(0, 1, fl.Width)
